@@ -30,6 +30,7 @@ def run(ctx):
     ctx.cov.update(states=res["states"], transitions=res["transitions"], traces_validated_against_impl=0,
                    evaluations=rt + acc, distinct_nontrivial=rt + acc,
                    rule="one evaluation = one message encoded strictly under one option combination and parsed back, or one parser-accepted text re-encoded and re-parsed",
+                   samples=[dict(opts=json.loads(lines[i])["opts"], text=smlcommon.text_of(json.loads(lines[i])["text"])) for i in (0, 700, 2000) if i < len(lines) and '"smlrt"' in lines[i]],
                    round_trips=rt, option_combinations=len(opts), accepted_texts=acc, exhaustive=False,
                    checker_cmd="vh sml --parts rt,acc; tlc OracleSml")
     ctx.assumptions += ["JIS-8 / localized text is drawn from printable characters without quote, backslash, angle brackets (the property's restriction); "
